@@ -9,11 +9,15 @@ package codec
 // run. Stream reads the same idioms — append chains, make+PutUintN+append,
 // AppendUintN, fixed-offset writes into a constant-size header buffer, element
 // stores, copy into a window, bytes.Buffer Write*/binary.Write, φ-joins of
-// alternatives, one level of in-module helper — and returns Pieces that carry
-// those values. Nothing is executed.
+// alternatives, up to two levels of in-module helper, counted loops over a
+// local table (unroll.go), buffers made at their final computed size
+// (symbuf.go) — and returns Pieces that carry those values. Nothing is executed.
 //
 // Soundness notes. A fixed buffer's content is trusted only if every write to
-// it dominates every read of it; an append result is trusted only if it is not
+// it dominates every read of it (a write under a condition that executes at
+// most once yields the alternative "its bytes | the buffer's zero bytes"; the
+// writes of an unrolled loop must execute in every iteration and all reads
+// come after the loop); an append result is trusted only if it is not
 // written through or retained, and if no two appends that can both execute
 // share a base slice (they could share storage). Anything else yields an
 // "unknown" piece (or an opaque piece of known width when only the content is
@@ -122,6 +126,13 @@ type Streamer struct {
 	bufMemo  map[*ssa.BasicBlock][]*Piece
 	depth    int
 	frame    *Frame
+	// unrolled loops (unroll.go): up is set on the streamer of one iteration and
+	// points to the streamer of the activation that contains the loop
+	up    *Streamer
+	// caller is set on the streamer of an inlined callee
+	caller *Streamer
+	loops  map[*ssa.BasicBlock]*Loop
+	iters map[*Frame]*Streamer
 }
 
 func NewStreamer(fn *ssa.Function, inModule func(*ssa.Function) bool) *Streamer {
@@ -160,10 +171,80 @@ func (s *Streamer) Returns() []ssa.Value {
 	return out
 }
 
+// successReturns is Returns with the return instructions.
+func (s *Streamer) successReturns() (vals []ssa.Value, rets []*ssa.Return) {
+	for _, b := range s.Fn.Blocks {
+		ret, ok := b.Instrs[len(b.Instrs)-1].(*ssa.Return)
+		if !ok || len(ret.Results) == 0 {
+			continue
+		}
+		if len(ret.Results) >= 2 {
+			last := ret.Results[len(ret.Results)-1]
+			if k, isK := last.(*ssa.Const); !isK || k.Value != nil {
+				continue
+			}
+		}
+		if k, isK := ret.Results[0].(*ssa.Const); isK && k.Value == nil && len(ret.Results) >= 2 {
+			continue
+		}
+		vals, rets = append(vals, ret.Results[0]), append(rets, ret)
+	}
+	return vals, rets
+}
+
+// CalleeReturns reads off, one by one, the success returns of the in-module
+// function called at `call` (a call made in activation fr). The pieces live in
+// the callee's activation, whose parameters are bound to the call's arguments.
+func (s *Streamer) CalleeReturns(call *ssa.Call, fr *Frame) (out [][]*Piece, rets []*ssa.Return, ok bool) {
+	f := call.Common().StaticCallee()
+	if f == nil || f.Blocks == nil || s.InModule == nil || !s.InModule(f) || s.depth >= 2 {
+		return nil, nil, false
+	}
+	cf := &Frame{Call: call, Callee: f, Parent: fr}
+	sub := NewStreamer(f, s.InModule)
+	sub.depth, sub.frame, sub.caller = s.depth+1, cf, s
+	vals, rets := sub.successReturns()
+	for _, v := range vals {
+		ps := sub.Stream(v)
+		setFrame(ps, cf)
+		out = append(out, ps)
+	}
+	return out, rets, len(out) > 0
+}
+
+// streamIn reads off value v of activation fr (s's own or an enclosing one):
+// every value is read by the streamer of the activation it lives in, so that
+// one value yields one Piece whoever asks.
+func (s *Streamer) streamIn(v ssa.Value, fr *Frame) []*Piece {
+	for t := s; t != nil; {
+		if t.frame == fr {
+			ps := t.Stream(v)
+			setFrame(ps, t.frame)
+			return ps
+		}
+		if t.up != nil {
+			t = t.up
+		} else {
+			t = t.caller
+		}
+	}
+	return s.Stream(v)
+}
+
 // Stream reads off the content of byte-slice value v.
 func (s *Streamer) Stream(v ssa.Value) []*Piece {
 	if ps, ok := s.memo[v]; ok {
 		return ps
+	}
+	if s.up != nil {
+		// the streamer of one loop iteration: values defined outside the loop are
+		// read by the enclosing streamer (one Piece per value, whoever asks)
+		if !s.frame.Iter.Loop.blocks[blockOf(v)] {
+			ps := s.up.Stream(v)
+			setFrame(ps, s.up.frame)
+			return ps
+		}
+		defer func() { setFrame(s.memo[v], s.frame) }()
 	}
 	if s.busy[v] {
 		return unknown(instrOf(v), "cyclic definition of %s", v.Name())
@@ -202,7 +283,7 @@ func (s *Streamer) stream1(v ssa.Value) []*Piece {
 		if root, off, n, ok := fixedView(v); ok {
 			return s.fixed(root, off, n, x)
 		}
-		return []*Piece{{Kind: "bytes", Width: -1, Src: v, At: x, Why: "make with a non-constant length"}}
+		return s.symBuffer(x) // made at a computed size: writes placed symbolically (symbuf.go)
 	case *ssa.Slice:
 		if root, off, n, ok := fixedView(v); ok {
 			return s.fixed(root, off, n, x)
@@ -229,6 +310,10 @@ func (s *Streamer) stream1(v ssa.Value) []*Piece {
 		return []*Piece{{Kind: "bytes", Width: w, Src: v, At: x}}
 	case *ssa.UnOp:
 		if x.Op == token.MUL {
+			if el, ef, ok := elemLoad(x, s.frame); ok {
+				// element of a local constant table ([][]byte{a, b, …}[k]): the value stored there
+				return s.streamIn(el, ef)
+			}
 			if g, ok := x.X.(*ssa.Global); ok {
 				p := &Piece{Kind: "global", Width: -1, Src: g, At: x}
 				if bs, ok := GlobalConstBytes(g); ok {
@@ -240,6 +325,10 @@ func (s *Streamer) stream1(v ssa.Value) []*Piece {
 		}
 	case *ssa.Parameter, *ssa.FreeVar:
 		return []*Piece{{Kind: "bytes", Width: -1, Src: v}}
+	case *ssa.Index:
+		if el, ef, ok := elemLoad(x, s.frame); ok {
+			return s.streamIn(el, ef) // element of a local constant array literal
+		}
 	case *ssa.Extract:
 		if call, ok := x.Tuple.(*ssa.Call); ok {
 			return s.producer(call, x.Index, v, x)
@@ -384,6 +473,9 @@ func (s *Streamer) chainOK(call *ssa.Call, base ssa.Value) string {
 			continue
 		}
 		if other.Block() == call.Block() || reaches(other.Block(), call.Block()) || reaches(call.Block(), other.Block()) {
+			if loopSeparates(base, call, other) {
+				continue
+			}
 			return fmt.Sprintf("slice %s is extended by two appends that can both execute (results may share storage)", base.Name())
 		}
 	}
@@ -553,6 +645,7 @@ type bufWrite struct {
 	at    ssa.Instruction
 	off   int64
 	piece *Piece
+	it    *Frame // the write is that of one iteration of an unrolled loop
 }
 
 type bufInfo struct {
@@ -565,8 +658,25 @@ type bufInfo struct {
 func (s *Streamer) collectBuf(root ssa.Value) *bufInfo {
 	bi := &bufInfo{}
 	_, _, bi.size, _ = fixedView(root)
-	var visit func(v ssa.Value, off, n int64, d int)
-	visit = func(v ssa.Value, off, n int64, d int) {
+	// it: the iteration of an unrolled loop the use is read in (nil outside loops)
+	var visit func(v ssa.Value, off, n int64, d int, it *Frame)
+	kIn := func(v ssa.Value, def int64, it *Frame) (int64, bool) {
+		if k, ok := optConst(v, def); ok || it == nil {
+			return k, ok
+		}
+		k, ok := NewSym().OfIn(v, it).ConstVal()
+		if !ok || !k.IsInt64() {
+			return 0, false
+		}
+		return k.Int64(), true
+	}
+	tag := func(p *Piece, it *Frame) *Piece {
+		if it != nil {
+			p.Frame, p.frameSet = it, true
+		}
+		return p
+	}
+	visit = func(v ssa.Value, off, n int64, d int, it *Frame) {
 		if v.Referrers() == nil {
 			return
 		}
@@ -579,42 +689,75 @@ func (s *Streamer) collectBuf(root ssa.Value) *bufInfo {
 			switch x := r.(type) {
 			case *ssa.DebugRef:
 			case *ssa.ChangeType:
-				visit(x, off, n, d+1)
+				visit(x, off, n, d+1, it)
 			case *ssa.Slice:
 				if x.Max != nil {
 					bi.opaque = "three-index slice of the buffer"
 					continue
 				}
-				lo, ok1 := optConst(x.Low, 0)
-				hi, ok2 := optConst(x.High, n)
+				lo, ok1 := kIn(x.Low, 0, it)
+				hi, ok2 := kIn(x.High, n, it)
+				if (!ok1 || !ok2) && it == nil {
+					// bounds that depend on the counter of a counted loop: one window per iteration
+					if lp := s.bodyLoop(x.Block()); lp != nil {
+						for k := 0; k < lp.N; k++ {
+							fk := lp.frame(k)
+							lo, ok1 := kIn(x.Low, 0, fk)
+							hi, ok2 := kIn(x.High, n, fk)
+							if !ok1 || !ok2 || lo < 0 || lo > hi || hi > n {
+								bi.opaque = "buffer sliced with bounds that are not constants within its length"
+								bi.readers = append(bi.readers, x)
+								break
+							}
+							visit(x, off+lo, hi-lo, d+1, fk)
+						}
+						continue
+					}
+				}
 				if !ok1 || !ok2 || lo < 0 || lo > hi || hi > n {
-					bi.opaque = "buffer sliced with bounds that are not constants within its length"
-					bi.readers = append(bi.readers, x)
+					if readOnly(x, 0) != "" {
+						bi.opaque = "buffer sliced with bounds that are not constants within its length"
+					}
+					bi.readers = append(bi.readers, x) // a window that is only read
 					continue
 				}
-				visit(x, off+lo, hi-lo, d+1)
+				visit(x, off+lo, hi-lo, d+1, it)
 			case *ssa.IndexAddr:
-				idx, isK := constI(x.Index)
-				for _, rr := range *x.Referrers() {
-					switch y := rr.(type) {
-					case *ssa.DebugRef:
-					case *ssa.UnOp:
-						if y.Op == token.MUL {
-							bi.readers = append(bi.readers, y)
+				its := []*Frame{it}
+				if _, isK := constI(x.Index); !isK && it == nil {
+					if lp := s.bodyLoop(x.Block()); lp != nil {
+						its = nil
+						for k := 0; k < lp.N; k++ {
+							its = append(its, lp.frame(k))
 						}
-					case *ssa.Store:
-						if y.Addr != ssa.Value(x) {
-							bi.opaque = "address of a buffer element is stored"
-							continue
+					}
+				}
+				for _, it := range its {
+					idx, isK := kIn(x.Index, 0, it)
+					if x.Index == nil {
+						isK = false
+					}
+					for _, rr := range *x.Referrers() {
+						switch y := rr.(type) {
+						case *ssa.DebugRef:
+						case *ssa.UnOp:
+							if y.Op == token.MUL {
+								bi.readers = append(bi.readers, y)
+							}
+						case *ssa.Store:
+							if y.Addr != ssa.Value(x) {
+								bi.opaque = "address of a buffer element is stored"
+								continue
+							}
+							if !isK || idx < 0 || idx >= n {
+								bi.opaque = "element store at a non-constant index"
+								bi.writes = append(bi.writes, bufWrite{at: y, off: off, piece: &Piece{Kind: "unknown", Width: int(n)}})
+								continue
+							}
+							bi.writes = append(bi.writes, bufWrite{at: y, off: off + idx, piece: tag(bytePiece(y.Val, y), it), it: it})
+						default:
+							bi.opaque = "address of a buffer element escapes"
 						}
-						if !isK || idx < 0 || idx >= n {
-							bi.opaque = "element store at a non-constant index"
-							bi.writes = append(bi.writes, bufWrite{at: y, off: off, piece: &Piece{Kind: "unknown", Width: int(n)}})
-							continue
-						}
-						bi.writes = append(bi.writes, bufWrite{at: y, off: off + idx, piece: bytePiece(y.Val, y)})
-					default:
-						bi.opaque = "address of a buffer element escapes"
 					}
 				}
 			case *ssa.Store:
@@ -643,6 +786,9 @@ func (s *Streamer) collectBuf(root ssa.Value) *bufInfo {
 					case "copy":
 						if cc.Args[0] == v {
 							src := s.Stream(cc.Args[1])
+							if it != nil {
+								src = s.iterStreamer(it.Iter.Loop, it.Iter.K).Stream(cc.Args[1])
+							}
 							w, ok := ConstWidth(src)
 							if !ok || int64(w) > n {
 								bi.opaque = "copy of a variable-length or longer source into the buffer"
@@ -653,7 +799,7 @@ func (s *Streamer) collectBuf(root ssa.Value) *bufInfo {
 							for _, p := range src {
 								q := *p
 								q.At = x
-								bi.writes = append(bi.writes, bufWrite{at: x, off: o, piece: &q})
+								bi.writes = append(bi.writes, bufWrite{at: x, off: o, piece: &q, it: it})
 								o += int64(p.Width)
 							}
 						} else {
@@ -671,7 +817,7 @@ func (s *Streamer) collectBuf(root ssa.Value) *bufInfo {
 							bi.opaque = fmt.Sprintf("PutUint%d into a %d-byte window", 8*w, n)
 							continue
 						}
-						bi.writes = append(bi.writes, bufWrite{at: x, off: off, piece: &Piece{Kind: "int", Width: w, Order: order, Val: cc.Args[2], At: x}})
+						bi.writes = append(bi.writes, bufWrite{at: x, off: off, piece: tag(&Piece{Kind: "int", Width: w, Order: order, Val: cc.Args[2], At: x}, it), it: it})
 					default:
 						bi.readers = append(bi.readers, x)
 					}
@@ -692,7 +838,7 @@ func (s *Streamer) collectBuf(root ssa.Value) *bufInfo {
 			}
 		}
 	}
-	visit(root, 0, bi.size, 0)
+	visit(root, 0, bi.size, 0, nil)
 	return bi
 }
 
@@ -745,13 +891,40 @@ func (s *Streamer) fixed(root ssa.Value, off, n int64, at ssa.Instruction) []*Pi
 	if bi.opaque != "" {
 		return opaque(bi.opaque)
 	}
+	// A write that does not dominate every read (the optional field written
+	// under a condition) leaves, at any read, either its bytes or the zero bytes
+	// of the fresh buffer — provided it executes at most once (not in a cycle)
+	// and nothing else writes the same bytes (checked below as an overlap).
+	conditional := map[ssa.Instruction]bool{}
 	for _, w := range bi.writes {
+		if w.it != nil {
+			// a write of an unrolled loop: it must execute in every iteration, and
+			// every read of the buffer must come after the loop has run to its end
+			lp := w.it.Iter.Loop
+			if !w.at.Block().Dominates(lp.Header.Preds[lp.back]) {
+				return opaque("a write to the buffer inside a loop is not executed in every iteration")
+			}
+			for _, r := range bi.readers {
+				if w.at == r {
+					continue
+				}
+				if lp.blocks[r.Block()] || !lp.Header.Dominates(r.Block()) {
+					return opaque("the buffer is read before a loop that fills it has finished")
+				}
+			}
+			continue
+		}
 		for _, r := range bi.readers {
 			if w.at == r {
 				continue
 			}
 			if !instrBefore(w.at, r) {
-				return opaque("a write to the buffer does not dominate a read of it")
+				for _, sc := range w.at.Block().Succs {
+					if reaches(sc, w.at.Block()) {
+						return opaque("a write to the buffer inside a loop does not dominate a read of it")
+					}
+				}
+				conditional[w.at] = true
 			}
 		}
 	}
@@ -788,9 +961,15 @@ func (s *Streamer) fixed(root ssa.Value, off, n int64, at ssa.Instruction) []*Pi
 			return opaque(w.piece.Why)
 		}
 		zero(w.off - pos)
-		if w.piece.Kind == "zero" {
+		switch {
+		case w.piece.Kind == "zero":
 			zero(int64(w.piece.Width))
-		} else {
+		case conditional[w.at]:
+			out = append(out, &Piece{Kind: "alt", Width: w.piece.Width, At: w.at, Alts: []Alt{
+				{Pieces: []*Piece{w.piece}},
+				{Pieces: []*Piece{{Kind: "zero", Width: w.piece.Width, At: at}}},
+			}})
+		default:
 			out = append(out, w.piece)
 		}
 		pos = end
@@ -813,7 +992,7 @@ func isLoopHeader(b *ssa.BasicBlock) bool {
 
 func (s *Streamer) phi(p *ssa.Phi) []*Piece {
 	if isLoopHeader(p.Block()) {
-		return unknown(p, "loop-carried byte slice %s", p.Name())
+		return s.loopPhi(p)
 	}
 	var alts [][]*Piece
 	for _, e := range p.Edges {
@@ -884,6 +1063,7 @@ func (s *Streamer) producer(call *ssa.Call, idx int, v ssa.Value, at ssa.Instruc
 		sub := NewStreamer(f, s.InModule)
 		sub.depth = s.depth + 1
 		sub.frame = fr
+		sub.caller = s
 		rets := sub.Returns()
 		if len(rets) == 1 {
 			ps := sub.Stream(rets[0])
@@ -922,10 +1102,16 @@ type Frame struct {
 	Call   *ssa.Call
 	Callee *ssa.Function
 	Parent *Frame
+	// Iter is set (and Call/Callee are nil) for the activation of one iteration
+	// of an unrolled loop (unroll.go); Parent is the activation containing the loop.
+	Iter *Iter
 }
 
 // Bind returns the caller-side argument parameter p is bound to.
 func (f *Frame) Bind(p *ssa.Parameter) (ssa.Value, *Frame, bool) {
+	for f != nil && f.Iter != nil {
+		f = f.Parent // a loop iteration binds no parameters; its function's activation does
+	}
 	if f == nil || f.Callee == nil {
 		return nil, nil, false
 	}
@@ -940,10 +1126,23 @@ func (f *Frame) Bind(p *ssa.Parameter) (ssa.Value, *Frame, bool) {
 // Resolve follows parameter bindings outwards: a value that is a parameter of
 // an inlined helper becomes the argument it is bound to.
 func Resolve(v ssa.Value, fr *Frame) (ssa.Value, *Frame) {
-	for d := 0; d < 8; d++ {
+	for d := 0; d < 64; d++ {
 		if ct, ok := v.(*ssa.ChangeType); ok {
 			v = ct.X
 			continue
+		}
+		switch v.(type) {
+		case *ssa.UnOp, *ssa.Index:
+			if el, ef, ok := elemLoad(v, fr); ok {
+				v, fr = el, ef
+				continue
+			}
+		}
+		if ph, ok := v.(*ssa.Phi); ok {
+			if e, ef, ok := iterPhi(ph, fr); ok {
+				v, fr = e, ef
+				continue
+			}
 		}
 		p, ok := v.(*ssa.Parameter)
 		if !ok {
